@@ -33,12 +33,12 @@ CASE_TIMEOUT = 30.0
 MOD = __name__
 META = {
     "rule": "Hypothesis rule-based state machine: histories of <=30 (quick) / <=50 (thorough) operations parse / & / | / reparse / "
-    "variant over 28 base atoms x 4 spellings; every step is a probe compared warm vs cold. Non-trivial = a probe whose "
+    "variant over 29 base atoms x 4 spellings; every step is a probe compared warm vs cold. Non-trivial = a probe whose "
     "history contains, before it, an operation using one of the probe's atoms in a different spelling (equal but differently "
     "built operand); distinct by (history prefix, probe).",
     "assumptions": [
         "cold = every functools cache of dep_logic cleared + fresh objects; validated against a fresh interpreter in the thorough tier",
-        "single thread; PYTHONHASHSEED=0",
+        "single thread; the history layers run under PYTHONHASHSEED=0, the hash-seed layer compares fresh interpreters with seeds 0..n",
     ],
 }
 
@@ -53,6 +53,7 @@ BASE = [
     # a hole that can be written as a wildcard, and a range that can be written as ~=
     ("python_full_version", "<", "3.8"), ("python_full_version", ">=", "3.9"), ("python_full_version", "!=", "3.8.*"), ("python_version", "<", "3.8"),
     ("python_version", "~=", "3.8"), ("python_version", "<", "4"),
+    ("python_full_version", ">", "3.10"),
 ]
 REFL = M.REFLECT
 # atom pools of one history: related atoms (same variable, bounds one ~= step apart, X.Y / X.Y.0 twins) so that
@@ -61,6 +62,7 @@ FAMILIES = [
     [21, 16, 17, 20], [17, 18, 19, 16], [0, 1, 2, 3], [2, 3, 15, 16], [17, 21, 16], [0, 4, 5, 1], [19, 18, 21, 20, 16],
     [6, 7, 8, 14], [9, 10, 6, 8], [11, 12, 6], [6, 8, 9, 0], [13, 0, 6],
     [22, 23, 24, 25], [26, 27, 0, 25], [22, 23, 25, 0], [24, 22, 23, 1],
+    [9, 28, 7, 5], [9, 21, 7, 4], [6, 2, 10, 5],
 ]
 
 
@@ -269,6 +271,7 @@ def tasks(tier, seed):
     shards = 32 if tier == "quick" else 128
     steps = 30 if tier == "quick" else 50
     t = [(MOD, "machines", (n // shards, seed * 1_000_003 + i, steps)) for i in range(shards)]
+    t += [(MOD, "hashseed", (f, 4 if tier == "quick" else 8)) for f in ([0, 16, 12] if tier == "quick" else range(len(FAMILIES)))]
     fams = range(len(FAMILIES)) if tier == "thorough" else [0, 2, 7, 12, 13, 15]
     t += [(MOD, "two_step", (f, sh, 4)) for f in fams for sh in range(4)]
     if tier == "thorough":
@@ -321,6 +324,62 @@ def two_step(acc, fam_idx, shard, nshards):
                 harness.process(mod, acc, "history", {"ops": ops}, layer, isolate=False)
     if shard == 0:
         acc.sample({"family": [render_atom(b, 0) for b in fam], "histories": len(hist), "probes": len(probes)}, layer)
+
+
+def seed_recipes(fam_idx):
+    """Single parse_marker calls over one family plus two foreign atoms: shapes that reach union_simplify /
+    intersect_simplify (shared factors) and the cnf/dnf products."""
+    import itertools
+
+    fam = list(FAMILIES[fam_idx])
+    for extra in (9, 7, 1):
+        if extra not in fam and len(fam) < 6:
+            fam.append(extra)
+    A = [["atom", b, 0] for b in fam]
+    out = []
+    for x, y, z, w in itertools.product(A, repeat=4):
+        if x == y or z == w:
+            continue
+        out.append(["parse", ["and", [x, y, ["or", [z, w]]]], 0])
+        out.append(["parse", ["or", [["and", [x, y]], ["and", [x, z]], w]], 0])
+    return out
+
+
+def hashseed(acc, fam_idx, nseeds):
+    """The same single operation in fresh interpreters that differ only in PYTHONHASHSEED."""
+    layer = "fresh-interpreters-by-hash-seed"
+    recipes = seed_recipes(fam_idx)
+    env0 = dict(os.environ, PYTHONPATH=os.pathsep.join([harness.VERIF, os.path.join(harness.REPO, "src")] + os.environ.get("PYTHONPATH", "").split(os.pathsep)))
+    import tempfile
+
+    with tempfile.NamedTemporaryFile("w", suffix=".json", delete=False) as f:
+        json.dump(recipes, f)
+        path = f.name
+    try:
+        results = {}
+        for s in range(nseeds):
+            p = subprocess.run([sys.executable, "-m", "vpcheck.checks.c10", "--batch", path], env=dict(env0, PYTHONHASHSEED=str(s)), capture_output=True, text=True, timeout=1800)
+            if p.returncode != 0:
+                raise harness.HarnessError(f"hash-seed batch failed: {p.stderr[-500:]}")
+            results[s] = json.loads(p.stdout.strip().splitlines()[-1])
+    finally:
+        os.unlink(path)
+    for i, r in enumerate(recipes):
+        acc.case(layer)
+        acc.oracle_evaluations += nseeds
+        base = results[0][i]
+        if base is None:
+            continue
+        acc.nontrivial_exhaustive += 1
+        for s in range(1, nseeds):
+            o = results[s][i]
+            if o is None:
+                continue
+            d = diff_kind(o, base)
+            if d:
+                acc.fail("seedprobe", f"result-depends-on-PYTHONHASHSEED:{d}", {"recipe": r, "text": render_tree(r[1]), "seeds": [0, s]}, expected={"seed 0": base["text"]}, got={f"seed {s}": o["text"]})
+                break
+    acc.sample({"family": fam_idx, "recipes": len(recipes), "seeds": nseeds, "example": render_tree(recipes[0][1])}, layer)
 
 
 def _recipe_to_ops(r, base=0):
@@ -391,6 +450,16 @@ def fresh(acc, seed, n):
 def evaluate(kind, case, acc):
     if kind == "fresh":
         return
+    if kind == "seedprobe":
+        env0 = dict(os.environ, PYTHONPATH=os.pathsep.join([harness.VERIF, os.path.join(harness.REPO, "src")] + os.environ.get("PYTHONPATH", "").split(os.pathsep)))
+        obs = []
+        for s in case["seeds"]:
+            p = subprocess.run([sys.executable, "-m", "vpcheck.checks.c10", json.dumps(case["recipe"])], env=dict(env0, PYTHONHASHSEED=str(s)), capture_output=True, text=True, timeout=300)
+            obs.append(json.loads(p.stdout.strip().splitlines()[-1]))
+        d = diff_kind(obs[0], obs[1])
+        if d:
+            acc.fail(kind, f"result-depends-on-PYTHONHASHSEED:{d}", case, expected={f"seed {case['seeds'][0]}": obs[0]["text"]}, got={f"seed {case['seeds'][1]}": obs[1]["text"]})
+        return
     ops = case["ops"]
     warm = case.get("warm")
     if warm is None:
@@ -422,6 +491,8 @@ def evaluate(kind, case, acc):
 
 
 def candidates(kind, case):
+    if kind != "history":
+        return
     ops = case["ops"]
     n = len(ops)
     for k in range(n - 2, -1, -1):
@@ -449,5 +520,15 @@ def candidates(kind, case):
 
 
 if __name__ == "__main__":
-    # fresh-interpreter probe: python -m vpcheck.checks.c10 '<recipe json>'
-    print(json.dumps(observe(compute(json.loads(sys.argv[1])))))
+    # fresh-interpreter probes: python -m vpcheck.checks.c10 '<recipe json>'  |  --batch <file with a list of recipes>
+    if sys.argv[1] == "--batch":
+        out = []
+        for r in json.load(open(sys.argv[2])):
+            harness.reset_caches()
+            try:
+                out.append(observe(compute(r)))
+            except Exception:  # noqa: BLE001
+                out.append(None)
+        print(json.dumps(out))
+    else:
+        print(json.dumps(observe(compute(json.loads(sys.argv[1])))))
